@@ -5,6 +5,8 @@ CONSTANTS
   FbStartStop = {TRUE, FALSE}
   Rules <- RulesAll
   Events <- EventsA
+  BadRules <- BadAll
+  MaxRejected = 2
   MaxRules = 5
   MaxStatus = 6
   MaxRuns = 3
